@@ -57,12 +57,16 @@ def same(Mmodel, Mimpl, exact):
         return True
     if exact:
         return np.array_equal(Mmodel, Mimpl)
-    scale = 1.0 + max(np.abs(Mmodel).max(), np.abs(Mimpl).max())
-    return bool(np.all(np.abs(Mmodel - Mimpl) <= TOL * scale)) and not np.isnan(Mimpl).any()
+    if np.isnan(Mimpl).any():
+        return False
+    # RELATIVE to the largest entry (the exact model is scale-free; no absolute floor)
+    scale = max(np.abs(Mmodel).max(), np.abs(Mimpl).max())
+    return bool(np.all(np.abs(Mmodel - Mimpl) <= TOL * scale))
 
 
-def differ(X, Y):
-    """oracle comparison of two implementation matrices"""
+def differ(X, Y, exact=False):
+    """oracle comparison of two implementation matrices: exact where the data make the implementation exact
+    (unit-vector probes of plain geometries), else relative to the largest entry (no absolute floor)"""
     if X is None or Y is None:
         return True
     if X.shape != Y.shape:
@@ -71,7 +75,9 @@ def differ(X, Y):
         return False
     if np.isnan(X).any() or np.isnan(Y).any():
         return True
-    scale = 1.0 + max(np.abs(X).max(), np.abs(Y).max())
+    if exact:
+        return not np.array_equal(X, Y)
+    scale = max(np.abs(X).max(), np.abs(Y).max())
     return bool(np.any(np.abs(X - Y) > TOL * scale))
 
 
@@ -250,7 +256,7 @@ def rep_expected(res, fwd, adj, tfwd, tadj):
     return exp
 
 
-def oracle_linear(ctx, res, keyf, desc, adjoint_pair=True):
+def oracle_linear(ctx, res, keyf, desc, adjoint_pair=True, exact=False):
     """the property on the implementation alone; keyf(aspect) -> key.  Returns set of failing aspects."""
     bad = set()
     F, Ad = res["fwd"], res["adj"]
@@ -258,7 +264,7 @@ def oracle_linear(ctx, res, keyf, desc, adjoint_pair=True):
         ctx.fail(keyf("adjoint"), desc, "forward/adjoint evaluate", res.get("fwd_err") or res.get("adj_err"), "forward or adjoint raises on a parameter vector")
         return {"adjoint"}
     if adjoint_pair:
-        if differ(F.T, Ad):
+        if differ(F.T, Ad, exact):
             k = np.unravel_index(np.argmax(np.abs(F.T - Ad)), Ad.shape) if F.T.shape == Ad.shape else None
             ctx.fail(keyf("adjoint"), {**desc, "entry": None if k is None else [int(k[0]), int(k[1])]},
                      "matrix of adjoint = transpose of matrix of forward",
@@ -267,25 +273,26 @@ def oracle_linear(ctx, res, keyf, desc, adjoint_pair=True):
             bad.add("adjoint")
         else:
             for (x, y, lhs, rhs) in res["ip"]:
-                if not close(lhs, rhs, 1e-9):
+                ipscale = float(np.abs(F).max() * np.abs(x).sum() * np.abs(y).sum()) if F.size else 0.0
+                if abs(lhs - rhs) > 1e-9 * ipscale:
                     ctx.fail(keyf("adjoint"), {**desc, "x": x, "y": y}, lhs, rhs, "<A x, y> != <x, A* y>")
                     bad.add("adjoint")
     G = res["gm"]
-    if G is None or differ(G, F):
+    if G is None or differ(G, F, exact):
         ctx.fail(keyf("get_matrix_range_dim_1" if (G is None and res["m"] == 1) else "get_matrix"), desc, "get_matrix()[:, j] = forward(e_j), shape (range_dim, domain_dim)",
                  res.get("gm_err") if G is None else {"shape": list(G.shape), "forward shape": list(F.shape)},
                  "matrix representation does not reproduce the forward map column by column")
         bad.add("get_matrix")
-    elif res.get("gm2") is None or differ(res["gm2"], F):
+    elif res.get("gm2") is None or differ(res["gm2"], F, exact):
         ctx.fail(keyf("get_matrix"), {**desc, "call": "second get_matrix() after forward calls"}, "cached get_matrix() = forward map column by column",
                  None if res.get("gm2") is None else res["gm2"].tolist(), "cached matrix representation changed after later forward calls")
         bad.add("get_matrix")
     tb = []
-    if res["tfwd"] is None or differ(res["tfwd"], Ad):
+    if res["tfwd"] is None or differ(res["tfwd"], Ad, exact):
         tb.append("T.forward != adjoint" + (": " + res.get("tfwd_err", "") if res["tfwd"] is None else ""))
-    if res["tadj"] is None or differ(res["tadj"], F):
+    if res["tadj"] is None or differ(res["tadj"], F, exact):
         tb.append("T.adjoint != forward" + (": " + res.get("tadj_err", "") if res["tadj"] is None else ""))
-    if adjoint_pair and (res["tgm"] is None or (G is not None and differ(res["tgm"], G.T))):
+    if adjoint_pair and (res["tgm"] is None or (G is not None and differ(res["tgm"], G.T, exact))):
         tb.append("T.get_matrix() != get_matrix().T" + (": " + res.get("tgm_err", "") if res["tgm"] is None else ""))
     if tb:
         ctx.fail(keyf("T"), desc, "T swaps forward and adjoint (and transposes the matrix)", tb, "transposed model is not the swap of forward and adjoint")
@@ -302,7 +309,8 @@ def oracle_linear(ctx, res, keyf, desc, adjoint_pair=True):
         if adjoint_pair and not rb and "adjoint" not in bad:
             for rep in REPS:
                 lhs = (res["rep"][("fwd", rep)] * Y).sum(axis=0); rhs = (X * res["rep"][("adj", rep)]).sum(axis=0)
-                if not vclose(lhs, rhs, 1e-9):
+                ipscale = float(np.abs(F).max()) * np.abs(X).sum(axis=0) * np.abs(Y).sum(axis=0) if F.size else np.zeros(3)
+                if np.any(np.abs(lhs - rhs) > 1e-9 * ipscale):
                     rb.append(f"<forward({rep}) , y> != <x, adjoint({rep})>")
         asym = ":geometry-eq-asymmetric" if res.get("geom_eq_asym") else ":geometry-eq-raises" if res.get("geom_eq_raises") else ""
         if rb:
@@ -357,10 +365,43 @@ def tie_linear(ctx, out, res, tiekey, desc, exact, keyf, adjoint_pair=True):
     if not ok:
         # failing-input search at the disagreeing case: does the property itself fail here?
         probe_ctx = _Collector()
-        bad = oracle_linear(probe_ctx, res, keyf, desc, adjoint_pair)
+        bad = oracle_linear(probe_ctx, res, keyf, desc, adjoint_pair, exact)
         for fl in probe_ctx.failures:
             ctx.fail(tiekey, fl[1], fl[2], fl[3], fl[4])
     return ok
+
+
+def check_own_model(ctx, model, res, tiekey, desc):
+    """the problem's OWN model object (not only the LinearModel rebuilt from its parts): forward and adjoint
+    matrices must be those of the rebuilt model, else tie break + the property's oracle on the own object"""
+    with quiet():
+        try:
+            F0 = cols(lambda x: model.forward(x), int(model.domain_dim))
+            A0 = cols(lambda y: model.adjoint(y), int(model.range_dim))
+        except Exception as e:
+            ctx.disagree(tiekey, desc, "evaluates", repr(e)[:100], "problem's own model raises")
+            ctx.fail(tiekey, desc, "forward/adjoint evaluate", repr(e)[:100], "forward or adjoint of the shipped model raises")
+            return
+    if differ(F0, res["fwd"]) or differ(A0, res["adj"]):
+        ctx.disagree(tiekey, desc, "LinearModel(its parts, its geometries)", "problem.model", "the problem's own model object differs from the model rebuilt from its parts")
+        if differ(F0.T, A0):
+            ctx.fail(tiekey, desc, "matrix of adjoint = transpose of matrix of forward", {"forward^T": F0.T.tolist()[:6], "adjoint": A0.tolist()[:6]},
+                     "<A x, y> != <x, A* y> on the problem's own model object")
+
+
+def centred_symmetric(P):
+    """symmetric about the index s//2 along every axis over the overlapping range, maximum at the centre
+    (what the documentation of the Gauss / Moffat PSFs promises: a PSF centred at `center = s//2`)"""
+    P = np.asarray(P, dtype=float)
+    for ax in range(P.ndim):
+        s_ = P.shape[ax]; c = s_ // 2
+        for d in range(1, s_):
+            if c - d < 0 or c + d >= s_:
+                continue
+            a = np.take(P, c + d, axis=ax); b = np.take(P, c - d, axis=ax)
+            if np.any(np.abs(a - b) > 1e-12 * np.abs(P).max()):
+                return False
+    return bool(P[tuple(sh // 2 for sh in P.shape)] == P.max())
 
 
 class _Collector:
@@ -476,7 +517,7 @@ def _run(ctx):
             ctx.case(casekind or f"lin-{kind}-{fam}", desc)
             res = probe(make_model)
             tie_linear(ctx, out, res, f"tie:LinearModel:{kind}:{gd.label}>{gr.label}", desc, exact, keyf, adjoint_pair=not wrong_adjoint)
-            bad = oracle_linear(ctx, res, keyf, desc, adjoint_pair=not wrong_adjoint)
+            bad = oracle_linear(ctx, res, keyf, desc, adjoint_pair=not wrong_adjoint, exact=exact)
             hist = ctx.extra_cov.setdefault("oracle_verdicts", {})
             for a in ("adjoint", "get_matrix", "T"):
                 kk = f"{kind}:{fam}:{a}:{'fail' if a in bad else 'hold'}"
@@ -579,6 +620,35 @@ def _run(ctx):
     for gd_, gr_, kinds in same_class:
         for kd in kinds:
             lin_case(gd_, gr_, kd, "dense", tag="@same-class", preserve=True, casekind="lin-same-class-" + kd)
+    # ---- SCALE: entries far from O(1), so that a structural decision taken with a tolerance (e.g. "is the matrix
+    # symmetric?" via np.allclose) shows.  The model is exact and scale-free; unit-vector probes of plain geometries
+    # are exact in floating point, so these cases are compared EXACTLY (oracle included).
+    scaled = []
+    for c_ in (1e-12, 1e-9, 1e-6, 1e6, 1e9):
+        nS = rng.choice([3, 4, 5])
+        Mi = nrs.randint(-4, 5, size=(nS, nS)).astype(float)
+        Mi[nS - 1, 0] = 3.0; Mi[0, nS - 1] = -2.0                       # certainly non-symmetric
+        scaled.append((f"{c_:g}*M", c_ * Mi))
+        scaled.append((f"{c_:g}*tril(M)", c_ * np.tril(Mi)))
+        Mr = nrs.randint(-4, 5, size=(nS, nS + 1)).astype(float)
+        scaled.append((f"{c_:g}*M(rect)", c_ * Mr))
+    for eps_, big in ((1e-10, 1.0), (1e-12, 1.0), (1e-9, 1.0), (1e-4, 1e6), (1e-16, 1e-6)):
+        nS = rng.choice([3, 4, 5])
+        S_ = nrs.randint(-4, 5, size=(nS, nS)).astype(float); S_ = S_ + S_.T
+        N_ = nrs.randint(1, 5, size=(nS, nS)).astype(float); N_ = np.triu(N_, 1)      # strictly asymmetric part
+        scaled.append((f"{big:g}*S+{eps_:g}*N", big * S_ + eps_ * N_))
+    for name_, As in scaled:
+        r_, c__ = As.shape
+        variants = [("mb", "dense"), ("mb", "csc"), ("mb", "csr"), ("fn", "dense")] if thorough else \
+                   [("mb", rng.choice(["dense", "csc", "csr"])), rng.choice([("mb", "dense"), ("fn", "dense"), ("mb", "csr"), ("mb", "csc")])]
+        for kd, sp in variants:
+            lab = rng.choice(["Continuous1D", "Discrete", "Default1D"])
+            lin_case(g1(lab, c__), g1(lab, r_), kd, sp, tag="@scale:" + name_, A_fixed=As, casekind="lin-scale-" + kd)
+    # one image-geometry function-backed model per scale
+    for c_ in (1e-9, 1e9):
+        lin_case(gI(2, 2, "C"), gI(2, 2, "F"), "fn", "dense", tag=f"@scale:{c_:g}*tril(M)", preserve=True,
+                 A_fixed=c_ * np.tril(nrs.randint(1, 5, size=(4, 4)).astype(float)), casekind="lin-scale-fn")
+
     # the class of inputs where geometry equality is asymmetric: `_DefaultGeometry1D.__eq__` accepts every Continuous1D
     # subclass with the same grid, so a default domain "equals" a StepExpansion range on the grid 0..n-1 and the
     # CUQIarray output is never projected: known finding `LinearModel:repr:geometry-eq-asymmetric:*`
@@ -652,7 +722,8 @@ def _run(ctx):
             Pl = P if P is not None else np.ones(1)
         exact = P is not None
         s = len(Pl)
-        cls = f"BC={BC.lower()}:{'odd' if s % 2 else 'even'}:{'sym' if np.array_equal(Pl, Pl[::-1]) else 'asym'}"
+        psfcls1 = named.lower() if named is not None else ("custom-sym" if np.array_equal(Pl, Pl[::-1]) else "custom-asym")
+        cls = f"BC={BC.lower()}:PSF={psfcls1}:{'odd' if s % 2 else 'even'}"
 
         def h(out):
             ctx.case("deconv1d" + ("-named" if P is None else ""), desc)
@@ -666,6 +737,10 @@ def _run(ctx):
             tie_ok = same(Mm, A, exact)
             keyf = lambda aspect: f"LinearModel:{aspect}:mb:plain:Continuous1D>Continuous1D@Deconvolution1D:{cls}"
             res = probe(lambda: Deconvolution1D_model(TP))
+            check_own_model(ctx, TP.model, res, tiekey, desc)
+            if named is not None and named.lower() in ("gauss", "moffat") and not centred_symmetric(Pl):
+                ctx.fail(f"Deconvolution1D:PSF={named.lower()}:centred-symmetric:{'odd' if s % 2 else 'even'}", {**desc, "PSF_array": Pl.tolist()},
+                         "PSF symmetric about its centre pixel s//2", "asymmetric / off-centre", "the shipped Gauss/Moffat PSF is not the documented centred symmetric PSF")
             if not tie_ok:
                 ctx.disagree(tiekey, desc, out[:300], str(A.tolist())[:300], "stored matrix differs from the model's assembly A[i,:] = conv(e_i)")
                 c = _Collector(); oracle_linear(c, res, keyf, desc)
@@ -699,6 +774,10 @@ def _run(ctx):
                 deconv1_case(rng.choice([5, 6]), BC, named=named, size=size, param=rng.choice([None, 1.0, 1.5]))
     for BC in ("Periodic", "ZERO", "neumann", "foo"):
         deconv1_case(5, BC, P=int_psf(3, False))
+    for named in ("gauss", "moffat", "defocus"):
+        for prm in (1e-3, 0.3, 1e3):
+            deconv1_case(6, rng.choice(bcs1), named=named, size=rng.choice([3, 5]), param=prm)
+    deconv1_case(6, "periodic", P=1e-9 * int_psf(3, False)); deconv1_case(5, "zero", P=1e9 * int_psf(4, False))
 
     # scipy's convolve1d itself against `conv1` (the operator the theorems conv1_flip_adjoint / deconv1d_matrix speak about)
     for mode in ("constant", "wrap", "nearest", "reflect", "mirror"):
@@ -752,7 +831,9 @@ def _run(ctx):
             impl_ok = False; err = repr(e)[:100]; Pl = P if P is not None else np.ones((1, 1))
         s = Pl.shape[0]
         symm = np.array_equal(Pl, Pl[::-1, :]) and np.array_equal(Pl, Pl[:, ::-1])
-        cls = f"BC={BC.lower()}:{'odd' if s % 2 else 'even'}:{'sym' if symm else 'asym'}"
+        # PSF identity: named PSFs by NAME (what the documentation promises, not what the array happens to be)
+        psfcls = named.lower() if named is not None else ("custom-sym" if symm else "custom-asym")
+        cls = f"BC={BC.lower()}:PSF={psfcls}:{'odd' if s % 2 else 'even'}"
 
         def make_model():
             M = TP.model
@@ -767,11 +848,10 @@ def _run(ctx):
                 return
             keyf = lambda aspect: f"Deconvolution2D:{aspect}:{cls}"
             res = probe(make_model)
-            # also through the problem's own model object (not only the rebuilt one)
-            with quiet():
-                F0 = cols(lambda x: TP.model.forward(x), n * n)
-            if differ(F0, res["fwd"]):
-                ctx.disagree(tiekey, desc, "rebuilt model", "TP.model", "problem's model object differs from LinearModel(its functions, its geometries)")
+            check_own_model(ctx, TP.model, res, tiekey, desc)
+            if named is not None and named.lower() in ("gauss", "moffat") and not centred_symmetric(Pl):
+                ctx.fail(f"Deconvolution2D:PSF={named.lower()}:centred-symmetric:{'odd' if s % 2 else 'even'}", {**desc, "PSF_array": Pl.tolist()},
+                         "PSF symmetric about its centre pixel s//2 along both axes", "asymmetric / off-centre", "the shipped Gauss/Moffat PSF is not the documented centred symmetric PSF")
             tie_linear(ctx, out, res, tiekey, desc, False, keyf)
             bad = oracle_linear(ctx, res, keyf, desc)
             hist = ctx.extra_cov.setdefault("deconv2d_adjoint_verdicts", {})
@@ -793,6 +873,15 @@ def _run(ctx):
                 deconv2_case(rng.choice([4, 5]), BC, named=named, size=size, param=rng.choice([1.0, 1.5, 2.56]))
     for BC in ("Periodic", "reflect", "foo"):
         deconv2_case(4, BC, P=int_psf2(3, False))
+    for named in ("gauss", "moffat", "defocus"):
+        for prm in (1e-3, 0.3, 1e3):
+            deconv2_case(4, rng.choice(bcs2), named=named, size=rng.choice([3, 5]), param=prm)
+    # the shipped default PSF (Gauss, PSF_size=21, PSF_param=2.56) under Neumann and periodic boundaries, and odd named sizes under Neumann
+    deconv2_case(6, "Neumann", named="gauss", size=21, param=2.56); deconv2_case(6, "periodic", named="gauss", size=21, param=2.56)
+    for named in ("gauss", "moffat"):
+        for size in (3, 5, 7):
+            deconv2_case(5, "neumann", named=named, size=size, param=rng.choice([1.0, 2.56]))
+    deconv2_case(3, "periodic", P=1e-9 * int_psf2(3, False)); deconv2_case(3, "zero", P=1e9 * int_psf2(3, False))
     # witnesses of conv_even_counterexample, conv_even_zero_counterexample, conv_reflect_/nearest_/mirror_counterexample,
     # and positive instances of deconv2d_adjoint_partial / deconv2d_adjoint_neumann_partial
     P0 = lambda sz: np.array([[2.0 * a + b + 1 for b in range(sz)] for a in range(sz)])
@@ -830,14 +919,14 @@ def _run(ctx):
         def h_lin(out):
             ctx.case("abel-model-" + (field or "default"), desc)
             res = probe(lambda: LinearModel(M._matrix, range_geometry=gr.make(), domain_geometry=gd.make()))
-            with quiet():
-                F0 = cols(lambda x: M.forward(x), int(M.domain_dim))
-            if differ(F0, res["fwd"]):
-                ctx.disagree("tie:Abel1D:model", desc, "rebuilt model", "TP.model", "problem's model object differs from LinearModel(its matrix, its geometries)")
+            check_own_model(ctx, M, res, "tie:Abel1D:model", desc)
             tie_linear(ctx, out, res, "tie:Abel1D:model", desc, False, keyf)
             oracle_linear(ctx, res, keyf, desc)
         jobs.append((f"lin mb {qm(A)} - {gd.token} {gr.token}", h_lin))
 
+    # extreme option values: every entry of the Abel matrix is ~ sqrt(endpoint/N)
+    for ep_ in (1e-18, 1e-12, 1e12):
+        abel_case(16 if ep_ == 1e-18 else rng.choice([5, 8]), ep_, None, {})
     for n in (range(3, 8) if not thorough else range(2, 14)):
         abel_case(n, rng.choice([1, 2, 0.5]), None, {})
         for _try in range(6):
